@@ -837,6 +837,11 @@ func (self *PathNode) handleChild(in *[]PathNode, lp *int, cp *int, p *thrift.Bi
 		}
 		p.Buf = buf
 		p.Read = ss + p.Read
+		if len(v.Next) == 0 && v.Node.l == 0 {
+			// a bare parent (NotScanParentNode) without children: nothing else carries the bytes of an
+			// EMPTY container (its header / STOP), so the node keeps its own span
+			v.Node = self.slice(ss, p.Read, et)
+		}
 	} else {
 		// not loaded this time: children of a previous use of the slot are not this value's children
 		v.Next = v.Next[:0]
